@@ -238,7 +238,9 @@ func describe(c progCase) interface{} {
 func TestStable(t *testing.T) {
 	rapid.Check(t, func(t *rapid.T) {
 		c := genProg(t)
+		vh.CurrentCase(prop, "stable", c)
 		inf, v := checkProg(c)
+		vh.ClearCurrentCase()
 		if v != nil {
 			vh.Fail(t, vh.Failure{Property: prop, Part: "stable", Signature: v.sig, Message: v.msg, Case: c})
 		}
